@@ -7,6 +7,7 @@ package main
 // removed immediately.
 
 import (
+	"encoding/json"
 	"fmt"
 	"io"
 	"io/fs"
@@ -28,7 +29,44 @@ type Mutant struct {
 	ID    string
 	Desc  string
 	Edits []Edit
-	Rule  string // rule id (prefix) that must report it
+	Rule  string // rule id (prefix) that must report it; "" = any rule of the property
+	Patch string // instead of Edits: a unified diff (an independently seeded change kept under <verif>/seeded)
+}
+
+// seededPatches lists the independently produced breaking changes kept for a property (DESIGN.md Appendix B) whose
+// recorded validation says the property's own check reports them; the thorough tier replays them as mutants.
+func seededPatches(verifDir, prop string) []Mutant {
+	ds, _ := filepath.Glob(filepath.Join(verifDir, "seeded", prop+"-*"))
+	sort.Strings(ds)
+	var out []Mutant
+	for _, d := range ds {
+		pf := filepath.Join(d, "patch.diff")
+		if _, err := os.Stat(pf); err != nil {
+			continue
+		}
+		mb, err := os.ReadFile(filepath.Join(d, "meta.json"))
+		if err != nil {
+			continue
+		}
+		var meta struct {
+			Checks map[string]json.RawMessage `json:"checks_reporting"`
+		}
+		if json.Unmarshal(mb, &meta) != nil {
+			continue
+		}
+		if _, ok := meta.Checks[prop]; !ok {
+			continue // recorded as reported by another property's check only (or by none): not this check's obligation
+		}
+		out = append(out, Mutant{ID: "seeded/" + filepath.Base(d), Desc: "independently seeded change", Patch: pf})
+	}
+	return out
+}
+
+func applyPatch(root, patch string) bool {
+	cmd := exec.Command("git", "apply", "--whitespace=nowarn", patch)
+	cmd.Dir = root
+	cmd.Env = append(os.Environ(), "GIT_CEILING_DIRECTORIES="+filepath.Dir(root))
+	return cmd.Run() == nil
 }
 
 func copyTree(src, dst string) error {
@@ -89,10 +127,11 @@ func runMutants(p *Property, repo, verifDir string) (map[string]interface{}, []s
 	type res struct {
 		id, status, detail string
 	}
-	results := make([]res, len(p.Mutants))
+	all := append(append([]Mutant{}, p.Mutants...), seededPatches(verifDir, p.ID)...)
+	results := make([]res, len(all))
 	sem := make(chan struct{}, 6)
 	var wg sync.WaitGroup
-	for i, m := range p.Mutants {
+	for i, m := range all {
 		wg.Add(1)
 		go func(i int, m Mutant) {
 			defer wg.Done()
@@ -117,7 +156,12 @@ func runMutants(p *Property, repo, verifDir string) (map[string]interface{}, []s
 			if b, err := os.ReadFile(filepath.Join(verifDir, "known_findings.txt")); err == nil {
 				_ = os.WriteFile(filepath.Join(vdir, "known_findings.txt"), b, 0o644)
 			}
-			ok, err := applyEdits(tree, m.Edits)
+			var ok bool
+			if m.Patch != "" {
+				ok = applyPatch(tree, m.Patch)
+			} else {
+				ok, err = applyEdits(tree, m.Edits)
+			}
 			if err != nil {
 				results[i].status = "error"
 				results[i].detail = err.Error()
@@ -135,7 +179,7 @@ func runMutants(p *Property, repo, verifDir string) (map[string]interface{}, []s
 			code := cmd.ProcessState.ExitCode()
 			hit := false
 			for _, line := range strings.Split(s, "\n") {
-				if strings.Contains(line, "["+m.Rule) && (strings.Contains(line, ": violated:") || strings.Contains(line, ": undecided:")) {
+				if (m.Rule == "" || strings.Contains(line, "["+m.Rule)) && (strings.Contains(line, ": violated:") || strings.Contains(line, ": undecided:")) {
 					hit = true
 				}
 			}
